@@ -7,15 +7,19 @@ From Whad Require Import C04.Model.
 Import ListNotations.
 Open Scope N_scope.
 
-(** ---- Bridge.__init__ (one direction: input device -> output device) ------------------------
+(** ---- Bridge.__init__ (both directions) ----------------------------------------------------
 
-    Threads: the application thread running Bridge(in_connector, out_connector); the
-    input device's reader thread (DevOutThread.run -> put_message); the I/O thread of the
-    OLD input connector (still running: nothing stops it); the I/O thread of the
-    BridgeIfaceWrapper created on the input device.  The wrapper relays every message it
-    processes to the output device's send queue ([b_peer]); unlock(dispatch_pending_input)
-    relays what the old connector was holding.  What the old connector's own I/O thread
-    dispatches to its packet handler once it is unlocked is NOT relayed ([b_lost]). *)
+    Per side (input / output device): the device's reader thread (DevOutThread.run ->
+    put_message), the I/O thread of the OLD connector of that device (still running: nothing
+    stops it), the I/O thread of the BridgeIfaceWrapper created on that device.  One
+    application thread runs Bridge(in_connector, out_connector).  A wrapper relays EVERY
+    message it processes -- whatever its kind -- to the other device's send queue
+    ([d_peer] of the side the message came from); unlock(dispatch_pending_input|output) relays what the
+    old connector was holding.  What the old connector's own I/O thread handles (packets
+    passed to its packet dispatch routine: [d_lost]; other messages: [d_deliv_o]) is NOT
+    relayed.  The two sides only share the application thread. *)
+
+Inductive dir := DIn | DOut.
 
 Inductive bppc := Q1 | Q5 | Q6 | Q7 | Q8l | Q8a | Q8b (to_wrapper : bool).
 
@@ -23,74 +27,68 @@ Inductive brpc := BR_Read | BR_P (p : bppc) (m : msg) | BR_Dead.
 
 Inductive xpc :=
 | X_Get | X_C2 (m : msg) | X_C5 (m : msg)
-| X_R1 (m : msg)      (* on_any_msg -> on_outbound -> output.send_message: load opened *)
+| X_R1 (m : msg)      (* on_any_msg -> on_outbound/on_inbound -> send_message: load opened *)
 | X_R2 (m : msg)      (* peer in_q.put *)
 | X_L1 (m : msg) | X_L2 (m : msg).   (* process_message: is_locked() of the wrapper (never locked) *)
 
 Inductive bapc :=
 | BA_F1 | BA_F2                      (* set_queue_filter(None) on both devices *)
 | BA_W1b | BA_W1c | BA_W1            (* input wrapper: its own flag stores; device.__connector := wrapper *)
-| BA_W2b | BA_W2c | BA_W2            (* output wrapper (no traffic on that side in this model) *)
-| BA_L1 | BA_L2                      (* self.__in.is_locked() *)
-| BU_1 | BU_2 | BU_3                 (* unlock: acquire, empty?, get *)
-| BU_R1 (m : msg) | BU_R2 (m : msg)  (* dispatch_pending_input: load opened; peer in_q.put *)
-| BU_6 | BU_5                        (* flag cleared under the lock; release *)
-| BA_M1 | BA_M2                      (* self.__out.is_locked() *)
+| BA_W2b | BA_W2c | BA_W2            (* output wrapper *)
+| BA_L1 (d : dir) | BA_L2 (d : dir)  (* old connector of side d: is_locked() *)
+| BU_1 (d : dir) | BU_2 (d : dir) | BU_3 (d : dir)            (* unlock: acquire, empty?, get *)
+| BU_R1 (d : dir) (m : msg) | BU_R2 (d : dir) (m : msg)      (* dispatch_pending_input|output: load opened; peer in_q.put *)
+| BU_6 (d : dir) | BU_5 (d : dir)    (* flag cleared under the lock; release *)
 | BA_Done.
 
-Record bstate := mkB {
-  b_wire : list chunk; b_spont : list chunk; b_rpc : brpc; b_rbuf : list frame;
-  b_conn : bool;               (* input device's __connector: false = old connector, true = wrapper *)
-  b_wready : bool;             (* the wrapper's event queue exists *)
-  b_filt : option N; b_outq : list msg;
-  b_ev_o : list msg; b_cpc : cpc; b_locked : bool; b_lk : bool; b_lq : list msg;
-  b_ev_w : list msg; b_xpc : xpc;
-  b_peer : list msg;
-  b_apc : bapc;
-  b_deliv_o : list msg; b_lost : list msg; b_deliv_w : list msg
+Record side := mkSide {
+  d_wire : list chunk;
+  d_spont : list chunk;
+  d_rpc : brpc;
+  d_rbuf : list frame;
+  d_conn : bool;
+  d_wready : bool;
+  d_filt : option N;
+  d_outq : list msg;
+  d_ev_o : list msg;
+  d_cpc : cpc;
+  d_locked : bool;
+  d_lk : bool;
+  d_lq : list msg;
+  d_ev_w : list msg;
+  d_xpc : xpc;
+  d_peer : list msg;
+  d_deliv_o : list msg;
+  d_lost : list msg;
+  d_deliv_w : list msg
 }.
 
-Definition bset_r (pc : brpc) (buf : list frame) (s : bstate) : bstate :=
-  {| b_wire := b_wire s; b_spont := b_spont s; b_rpc := pc; b_rbuf := buf; b_conn := b_conn s;
-     b_wready := b_wready s; b_filt := b_filt s; b_outq := b_outq s; b_ev_o := b_ev_o s; b_cpc := b_cpc s;
-     b_locked := b_locked s; b_lk := b_lk s; b_lq := b_lq s; b_ev_w := b_ev_w s; b_xpc := b_xpc s;
-     b_peer := b_peer s; b_apc := b_apc s; b_deliv_o := b_deliv_o s; b_lost := b_lost s;
-     b_deliv_w := b_deliv_w s |}.
-Definition bset_wire (w : list chunk) (sp : list chunk) (s : bstate) : bstate :=
-  {| b_wire := w; b_spont := sp; b_rpc := b_rpc s; b_rbuf := b_rbuf s; b_conn := b_conn s;
-     b_wready := b_wready s; b_filt := b_filt s; b_outq := b_outq s; b_ev_o := b_ev_o s; b_cpc := b_cpc s;
-     b_locked := b_locked s; b_lk := b_lk s; b_lq := b_lq s; b_ev_w := b_ev_w s; b_xpc := b_xpc s;
-     b_peer := b_peer s; b_apc := b_apc s; b_deliv_o := b_deliv_o s; b_lost := b_lost s;
-     b_deliv_w := b_deliv_w s |}.
-Definition bset_dev (c : bool) (rdy : bool) (f : option N) (oq : list msg) (s : bstate) : bstate :=
-  {| b_wire := b_wire s; b_spont := b_spont s; b_rpc := b_rpc s; b_rbuf := b_rbuf s; b_conn := c;
-     b_wready := rdy; b_filt := f; b_outq := oq; b_ev_o := b_ev_o s; b_cpc := b_cpc s;
-     b_locked := b_locked s; b_lk := b_lk s; b_lq := b_lq s; b_ev_w := b_ev_w s; b_xpc := b_xpc s;
-     b_peer := b_peer s; b_apc := b_apc s; b_deliv_o := b_deliv_o s; b_lost := b_lost s;
-     b_deliv_w := b_deliv_w s |}.
-Definition bset_o (ev : list msg) (pc : cpc) (l : bool) (k : bool) (q : list msg)
-                  (d : list msg) (lost : list msg) (s : bstate) : bstate :=
-  {| b_wire := b_wire s; b_spont := b_spont s; b_rpc := b_rpc s; b_rbuf := b_rbuf s; b_conn := b_conn s;
-     b_wready := b_wready s; b_filt := b_filt s; b_outq := b_outq s; b_ev_o := ev; b_cpc := pc;
-     b_locked := l; b_lk := k; b_lq := q; b_ev_w := b_ev_w s; b_xpc := b_xpc s;
-     b_peer := b_peer s; b_apc := b_apc s; b_deliv_o := d; b_lost := lost;
-     b_deliv_w := b_deliv_w s |}.
-Definition bset_w (ev : list msg) (pc : xpc) (peer : list msg) (d : list msg) (s : bstate) : bstate :=
-  {| b_wire := b_wire s; b_spont := b_spont s; b_rpc := b_rpc s; b_rbuf := b_rbuf s; b_conn := b_conn s;
-     b_wready := b_wready s; b_filt := b_filt s; b_outq := b_outq s; b_ev_o := b_ev_o s; b_cpc := b_cpc s;
-     b_locked := b_locked s; b_lk := b_lk s; b_lq := b_lq s; b_ev_w := ev; b_xpc := pc;
-     b_peer := peer; b_apc := b_apc s; b_deliv_o := b_deliv_o s; b_lost := b_lost s;
-     b_deliv_w := d |}.
+Definition sset_r (v_rpc : brpc) (v_rbuf : list frame) (s : side) : side :=
+  {| d_wire := d_wire s; d_spont := d_spont s; d_rpc := v_rpc; d_rbuf := v_rbuf; d_conn := d_conn s; d_wready := d_wready s; d_filt := d_filt s; d_outq := d_outq s; d_ev_o := d_ev_o s; d_cpc := d_cpc s; d_locked := d_locked s; d_lk := d_lk s; d_lq := d_lq s; d_ev_w := d_ev_w s; d_xpc := d_xpc s; d_peer := d_peer s; d_deliv_o := d_deliv_o s; d_lost := d_lost s; d_deliv_w := d_deliv_w s |}.
+Definition sset_wire (v_wire : list chunk) (v_spont : list chunk) (s : side) : side :=
+  {| d_wire := v_wire; d_spont := v_spont; d_rpc := d_rpc s; d_rbuf := d_rbuf s; d_conn := d_conn s; d_wready := d_wready s; d_filt := d_filt s; d_outq := d_outq s; d_ev_o := d_ev_o s; d_cpc := d_cpc s; d_locked := d_locked s; d_lk := d_lk s; d_lq := d_lq s; d_ev_w := d_ev_w s; d_xpc := d_xpc s; d_peer := d_peer s; d_deliv_o := d_deliv_o s; d_lost := d_lost s; d_deliv_w := d_deliv_w s |}.
+Definition sset_dev (v_conn : bool) (v_wready : bool) (v_filt : option N) (v_outq : list msg) (s : side) : side :=
+  {| d_wire := d_wire s; d_spont := d_spont s; d_rpc := d_rpc s; d_rbuf := d_rbuf s; d_conn := v_conn; d_wready := v_wready; d_filt := v_filt; d_outq := v_outq; d_ev_o := d_ev_o s; d_cpc := d_cpc s; d_locked := d_locked s; d_lk := d_lk s; d_lq := d_lq s; d_ev_w := d_ev_w s; d_xpc := d_xpc s; d_peer := d_peer s; d_deliv_o := d_deliv_o s; d_lost := d_lost s; d_deliv_w := d_deliv_w s |}.
+Definition sset_o (v_ev_o : list msg) (v_cpc : cpc) (v_locked : bool) (v_lk : bool) (v_lq : list msg) (v_deliv_o : list msg) (v_lost : list msg) (s : side) : side :=
+  {| d_wire := d_wire s; d_spont := d_spont s; d_rpc := d_rpc s; d_rbuf := d_rbuf s; d_conn := d_conn s; d_wready := d_wready s; d_filt := d_filt s; d_outq := d_outq s; d_ev_o := v_ev_o; d_cpc := v_cpc; d_locked := v_locked; d_lk := v_lk; d_lq := v_lq; d_ev_w := d_ev_w s; d_xpc := d_xpc s; d_peer := d_peer s; d_deliv_o := v_deliv_o; d_lost := v_lost; d_deliv_w := d_deliv_w s |}.
+Definition sset_w (v_ev_w : list msg) (v_xpc : xpc) (v_peer : list msg) (v_deliv_w : list msg) (s : side) : side :=
+  {| d_wire := d_wire s; d_spont := d_spont s; d_rpc := d_rpc s; d_rbuf := d_rbuf s; d_conn := d_conn s; d_wready := d_wready s; d_filt := d_filt s; d_outq := d_outq s; d_ev_o := d_ev_o s; d_cpc := d_cpc s; d_locked := d_locked s; d_lk := d_lk s; d_lq := d_lq s; d_ev_w := v_ev_w; d_xpc := v_xpc; d_peer := v_peer; d_deliv_o := d_deliv_o s; d_lost := d_lost s; d_deliv_w := v_deliv_w |}.
+
+Record bstate := mkB { b_in : side; b_out : side; b_apc : bapc }.
+
+Definition bside (d : dir) (s : bstate) : side := match d with DIn => b_in s | DOut => b_out s end.
+Definition bupd (d : dir) (f : side -> side) (s : bstate) : bstate :=
+  match d with
+  | DIn => {| b_in := f (b_in s); b_out := b_out s; b_apc := b_apc s |}
+  | DOut => {| b_in := b_in s; b_out := f (b_out s); b_apc := b_apc s |}
+  end.
 Definition bset_a (pc : bapc) (s : bstate) : bstate :=
-  {| b_wire := b_wire s; b_spont := b_spont s; b_rpc := b_rpc s; b_rbuf := b_rbuf s; b_conn := b_conn s;
-     b_wready := b_wready s; b_filt := b_filt s; b_outq := b_outq s; b_ev_o := b_ev_o s; b_cpc := b_cpc s;
-     b_locked := b_locked s; b_lk := b_lk s; b_lq := b_lq s; b_ev_w := b_ev_w s; b_xpc := b_xpc s;
-     b_peer := b_peer s; b_apc := pc; b_deliv_o := b_deliv_o s; b_lost := b_lost s;
-     b_deliv_w := b_deliv_w s |}.
+  {| b_in := b_in s; b_out := b_out s; b_apc := pc |}.
 
 (** [legacy_ctor]: Connector.__init__ as found gave the device its new connector before the
-    connector's event queue existed. *)
-Record bconfig := mkBC { legacy_ctor : bool }.
+    connector's event queue existed.  [quiet]: the devices only emit once Bridge.__init__ has
+    returned (a bridge created on a quiet link). *)
+Record bconfig := mkBC { legacy_ctor : bool; quiet : bool }.
 
 Fixpoint br_next (buf : list frame) : brpc * list frame :=
   match buf with
@@ -99,170 +97,198 @@ Fixpoint br_next (buf : list frame) : brpc * list frame :=
   | Some m :: r => (BR_P Q1 m, r)
   end.
 
-Definition bstep_R (s : bstate) : bstate :=
-  match b_rpc s with
+Definition sstep_R (s : side) : side :=
+  match d_rpc s with
   | BR_Read =>
-      match b_wire s with
+      match d_wire s with
       | [] => s
-      | c :: w => bset_r (fst (br_next c)) (snd (br_next c)) (bset_wire w (b_spont s) s)
+      | c :: w => sset_r (fst (br_next c)) (snd (br_next c)) (sset_wire w (d_spont s) s)
       end
   | BR_P p m =>
-      let fin s1 := bset_r (fst (br_next (b_rbuf s))) (snd (br_next (b_rbuf s))) s1 in
+      let fin s1 := sset_r (fst (br_next (d_rbuf s))) (snd (br_next (d_rbuf s))) s1 in
       match p with
-      | Q1 => bset_r (BR_P Q5 m) (b_rbuf s) s
-      | Q5 => bset_r (BR_P (match b_filt s with None => Q8l | Some _ => Q6 end) m) (b_rbuf s) s
-      | Q6 => match b_filt s with
-              | None => bset_r BR_Dead (b_rbuf s) s
-              | Some f => bset_r (BR_P (if matches f m then Q7 else Q8l) m) (b_rbuf s) s
+      | Q1 => sset_r (BR_P Q5 m) (d_rbuf s) s
+      | Q5 => sset_r (BR_P (match d_filt s with None => Q8l | Some _ => Q6 end) m) (d_rbuf s) s
+      | Q6 => match d_filt s with
+              | None => sset_r BR_Dead (d_rbuf s) s
+              | Some f => sset_r (BR_P (if matches f m then Q7 else Q8l) m) (d_rbuf s) s
               end
-      | Q7 => fin (bset_dev (b_conn s) (b_wready s) (b_filt s) (b_outq s ++ [m]) s)
-      | Q8l => bset_r (BR_P Q8a m) (b_rbuf s) s
-      | Q8a => bset_r (BR_P (Q8b (b_conn s)) m) (b_rbuf s) s
+      | Q7 => fin (sset_dev (d_conn s) (d_wready s) (d_filt s) (d_outq s ++ [m]) s)
+      | Q8l => sset_r (BR_P Q8a m) (d_rbuf s) s
+      | Q8a => sset_r (BR_P (Q8b (d_conn s)) m) (d_rbuf s) s
       | Q8b true =>
-          if b_wready s
-          then fin (bset_w (b_ev_w s ++ [m]) (b_xpc s) (b_peer s) (b_deliv_w s) s)
-          else bset_r BR_Dead (b_rbuf s) s     (* AttributeError: no event queue yet *)
+          if d_wready s
+          then fin (sset_w (d_ev_w s ++ [m]) (d_xpc s) (d_peer s) (d_deliv_w s) s)
+          else sset_r BR_Dead (d_rbuf s) s     (* AttributeError: no event queue yet *)
       | Q8b false =>
-          fin (bset_o (b_ev_o s ++ [m]) (b_cpc s) (b_locked s) (b_lk s) (b_lq s) (b_deliv_o s) (b_lost s) s)
+          fin (sset_o (d_ev_o s ++ [m]) (d_cpc s) (d_locked s) (d_lk s) (d_lq s) (d_deliv_o s) (d_lost s) s)
       end
   | BR_Dead => s
   end.
 
 (** The old connector's I/O thread: C04's step_C with synchronous mode off, repaired
     add_locked_pdu. *)
-Definition bstep_C (s : bstate) : bstate :=
-  let upd ev pc l k q d lost := bset_o ev pc l k q d lost s in
-  let same pc := upd (b_ev_o s) pc (b_locked s) (b_lk s) (b_lq s) (b_deliv_o s) (b_lost s) in
-  match b_cpc s with
-  | CC_Get => match b_ev_o s with
+Definition sstep_C (s : side) : side :=
+  let upd ev pc l k q d lost := sset_o ev pc l k q d lost s in
+  let same pc := upd (d_ev_o s) pc (d_locked s) (d_lk s) (d_lq s) (d_deliv_o s) (d_lost s) in
+  match d_cpc s with
+  | CC_Get => match d_ev_o s with
               | [] => s
-              | m :: r => upd r (CC_C2 m) (b_locked s) (b_lk s) (b_lq s) (b_deliv_o s) (b_lost s)
+              | m :: r => upd r (CC_C2 m) (d_locked s) (d_lk s) (d_lq s) (d_deliv_o s) (d_lost s)
               end
   | CC_C2 m => same (CC_C5 m)
-  | CC_C5 m => upd (b_ev_o s) (if m_pkt m then CC_L1 m else CC_Get) (b_locked s) (b_lk s) (b_lq s)
-                   (b_deliv_o s ++ [m]) (b_lost s)
+  | CC_C5 m => upd (d_ev_o s) (if m_pkt m then CC_L1 m else CC_Get) (d_locked s) (d_lk s) (d_lq s)
+                   (d_deliv_o s ++ [m]) (d_lost s)
   | CC_L1 m => same (CC_L2 m)
-  | CC_L2 m => if b_locked s then same (CC_A m)
-               else upd (b_ev_o s) CC_Get (b_locked s) (b_lk s) (b_lq s) (b_deliv_o s) (b_lost s ++ [m])
-  | CC_A m => if b_lk s then s
-              else upd (b_ev_o s) (CC_T m) (b_locked s) true (b_lq s) (b_deliv_o s) (b_lost s)
-  | CC_T m => if b_locked s then same (CC_Put m) else same (CC_RelD m)
-  | CC_Put m => upd (b_ev_o s) CC_Rel (b_locked s) (b_lk s) (b_lq s ++ [m]) (b_deliv_o s) (b_lost s)
-  | CC_Rel => upd (b_ev_o s) CC_Get (b_locked s) false (b_lq s) (b_deliv_o s) (b_lost s)
-  | CC_RelD m => upd (b_ev_o s) CC_Get (b_locked s) false (b_lq s) (b_deliv_o s) (b_lost s ++ [m])
+  | CC_L2 m => if d_locked s then same (CC_A m) else same (CC_D m)
+  | CC_A m => if d_lk s then s
+              else upd (d_ev_o s) (CC_T m) (d_locked s) true (d_lq s) (d_deliv_o s) (d_lost s)
+  | CC_T m => if d_locked s then same (CC_Put m) else same (CC_RelD m)
+  | CC_Put m => upd (d_ev_o s) CC_Rel (d_locked s) (d_lk s) (d_lq s ++ [m]) (d_deliv_o s) (d_lost s)
+  | CC_Rel => upd (d_ev_o s) CC_Get (d_locked s) false (d_lq s) (d_deliv_o s) (d_lost s)
+  | CC_RelD m => upd (d_ev_o s) (CC_D m) (d_locked s) false (d_lq s) (d_deliv_o s) (d_lost s)
+  | CC_D m => upd (d_ev_o s) CC_Get (d_locked s) (d_lk s) (d_lq s) (d_deliv_o s) (d_lost s ++ [m])
   | CC_S1 m | CC_S2 m | CC_SPut m => s
   end.
 
-(** The wrapper's I/O thread. *)
-Definition bstep_X (s : bstate) : bstate :=
-  let upd ev pc peer d := bset_w ev pc peer d s in
-  let same pc := upd (b_ev_w s) pc (b_peer s) (b_deliv_w s) in
-  match b_xpc s with
-  | X_Get => match b_ev_w s with
+(** The wrapper's I/O thread: relays whatever it processes. *)
+Definition sstep_X (s : side) : side :=
+  let upd ev pc peer d := sset_w ev pc peer d s in
+  let same pc := upd (d_ev_w s) pc (d_peer s) (d_deliv_w s) in
+  match d_xpc s with
+  | X_Get => match d_ev_w s with
              | [] => s
-             | m :: r => upd r (X_C2 m) (b_peer s) (b_deliv_w s)
+             | m :: r => upd r (X_C2 m) (d_peer s) (d_deliv_w s)
              end
   | X_C2 m => same (X_C5 m)
-  | X_C5 m => upd (b_ev_w s) (X_R1 m) (b_peer s) (b_deliv_w s ++ [m])
+  | X_C5 m => upd (d_ev_w s) (X_R1 m) (d_peer s) (d_deliv_w s ++ [m])
   | X_R1 m => same (X_R2 m)
-  | X_R2 m => upd (b_ev_w s) (if m_pkt m then X_L1 m else X_Get) (b_peer s ++ [m]) (b_deliv_w s)
+  | X_R2 m => upd (d_ev_w s) (if m_pkt m then X_L1 m else X_Get) (d_peer s ++ [m]) (d_deliv_w s)
   | X_L1 m => same (X_L2 m)
   | X_L2 m => same X_Get
   end.
 
+Definition after_side (d : dir) : bapc := match d with DIn => BA_L1 DOut | DOut => BA_Done end.
+
 (** Bridge.__init__ *)
 Definition bstep_A (cfg : bconfig) (s : bstate) : bstate :=
+  let setdev d c rdy f := bupd d (fun x => sset_dev c rdy f (d_outq x) x) in
+  let seto d l k q := bupd d (fun x => sset_o (d_ev_o x) (d_cpc x) l k q (d_deliv_o x) (d_lost x) x) in
   match b_apc s with
-  | BA_F1 => bset_a BA_F2 (bset_dev (b_conn s) (b_wready s) None (b_outq s) s)
-  | BA_F2 => bset_a (if legacy_ctor cfg then BA_W1 else BA_W1b) s
+  | BA_F1 => bset_a BA_F2 (setdev DIn (d_conn (b_in s)) (d_wready (b_in s)) None s)
+  | BA_F2 => bset_a (if legacy_ctor cfg then BA_W1 else BA_W1b)
+                    (setdev DOut (d_conn (b_out s)) (d_wready (b_out s)) None s)
   | BA_W1b => bset_a BA_W1c s
-  | BA_W1c => if legacy_ctor cfg
-              then bset_a BA_W2 (bset_dev (b_conn s) true (b_filt s) (b_outq s) s)
-              else bset_a BA_W1 (bset_dev (b_conn s) true (b_filt s) (b_outq s) s)
-  | BA_W1 => if legacy_ctor cfg
-             then bset_a BA_W1b (bset_dev true (b_wready s) (b_filt s) (b_outq s) s)
-             else bset_a BA_W2b (bset_dev true (b_wready s) (b_filt s) (b_outq s) s)
+  | BA_W1c => bset_a (if legacy_ctor cfg then BA_W2 else BA_W1)
+                     (setdev DIn (d_conn (b_in s)) true (d_filt (b_in s)) s)
+  | BA_W1 => bset_a (if legacy_ctor cfg then BA_W1b else BA_W2b)
+                    (setdev DIn true (d_wready (b_in s)) (d_filt (b_in s)) s)
   | BA_W2b => bset_a BA_W2c s
-  | BA_W2c => bset_a (if legacy_ctor cfg then BA_L1 else BA_W2) s
-  | BA_W2 => bset_a (if legacy_ctor cfg then BA_W2b else BA_L1) s
-  | BA_L1 => bset_a BA_L2 s
-  | BA_L2 => bset_a (if b_locked s then BU_1 else BA_M1) s
-  | BU_1 => if b_lk s then s
-            else bset_a BU_2 (bset_o (b_ev_o s) (b_cpc s) (b_locked s) true (b_lq s) (b_deliv_o s) (b_lost s) s)
-  | BU_2 => match b_lq s with [] => bset_a BU_6 s | _ :: _ => bset_a BU_3 s end
-  | BU_3 => match b_lq s with
-            | m :: q => bset_a (BU_R1 m) (bset_o (b_ev_o s) (b_cpc s) (b_locked s) (b_lk s) q (b_deliv_o s) (b_lost s) s)
-            | [] => s
-            end
-  | BU_R1 m => bset_a (BU_R2 m) s
-  | BU_R2 m => bset_a BU_2 (bset_w (b_ev_w s) (b_xpc s) (b_peer s ++ [m]) (b_deliv_w s) s)
-  | BU_6 => bset_a BU_5 (bset_o (b_ev_o s) (b_cpc s) false (b_lk s) (b_lq s) (b_deliv_o s) (b_lost s) s)
-  | BU_5 => bset_a BA_M1 (bset_o (b_ev_o s) (b_cpc s) (b_locked s) false (b_lq s) (b_deliv_o s) (b_lost s) s)
-  | BA_M1 => bset_a BA_M2 s
-  | BA_M2 => bset_a BA_Done s
+  | BA_W2c => bset_a (if legacy_ctor cfg then BA_L1 DIn else BA_W2)
+                     (setdev DOut (d_conn (b_out s)) true (d_filt (b_out s)) s)
+  | BA_W2 => bset_a (if legacy_ctor cfg then BA_W2b else BA_L1 DIn)
+                    (setdev DOut true (d_wready (b_out s)) (d_filt (b_out s)) s)
+  | BA_L1 d => bset_a (BA_L2 d) s
+  | BA_L2 d => bset_a (if d_locked (bside d s) then BU_1 d else after_side d) s
+  | BU_1 d => if d_lk (bside d s) then s
+              else bset_a (BU_2 d) (seto d (d_locked (bside d s)) true (d_lq (bside d s)) s)
+  | BU_2 d => match d_lq (bside d s) with [] => bset_a (BU_6 d) s | _ :: _ => bset_a (BU_3 d) s end
+  | BU_3 d => match d_lq (bside d s) with
+              | m :: q => bset_a (BU_R1 d m) (seto d (d_locked (bside d s)) (d_lk (bside d s)) q s)
+              | [] => s
+              end
+  | BU_R1 d m => bset_a (BU_R2 d m) s
+  | BU_R2 d m => bset_a (BU_2 d)
+                   (bupd d (fun x => sset_w (d_ev_w x) (d_xpc x) (d_peer x ++ [m]) (d_deliv_w x) x) s)
+  | BU_6 d => bset_a (BU_5 d) (seto d false (d_lk (bside d s)) (d_lq (bside d s)) s)
+  | BU_5 d => bset_a (after_side d) (seto d (d_locked (bside d s)) false (d_lq (bside d s)) s)
   | BA_Done => s
   end.
 
-Definition bemit (s : bstate) : bstate :=
-  match b_spont s with
+Definition semit (s : side) : side :=
+  match d_spont s with
   | [] => s
-  | c :: r => bset_wire (b_wire s ++ [c]) r s
+  | c :: r => sset_wire (d_wire s ++ [c]) r s
   end.
 
-Inductive baction := BA | BR | BC | BX | BEmit | BNop.
+Definition bdone (s : bstate) : bool := match b_apc s with BA_Done => true | _ => false end.
+
+Inductive baction := BA | BR (d : dir) | BC (d : dir) | BX (d : dir) | BEmit (d : dir) | BNop.
 
 Definition bact (cfg : bconfig) (a : baction) (s : bstate) : bstate :=
   match a with
-  | BA => bstep_A cfg s | BR => bstep_R s | BC => bstep_C s | BX => bstep_X s
-  | BEmit => bemit s | BNop => s
+  | BA => bstep_A cfg s
+  | BR d => bupd d sstep_R s
+  | BC d => bupd d sstep_C s
+  | BX d => bupd d sstep_X s
+  | BEmit d => if quiet cfg && negb (bdone s) then s else bupd d semit s
+  | BNop => s
   end.
 
 Definition brun (cfg : bconfig) (l : list baction) (s : bstate) : bstate :=
   fold_left (fun s a => bact cfg a s) l s.
 
-(** The bridge is created on a locked input connector that holds [held]; [ev0] are events
-    still in the old connector's queue; [sp] is what the input device emits from then on. *)
+(** A side whose old connector is locked and holds [held]; [ev0] are events still in the old
+    connector's queue; [sp] is what the device emits from then on. *)
+Definition sinit (lockd : bool) (held ev0 : list msg) (sp : list chunk) : side :=
+  {| d_wire := []; d_spont := sp; d_rpc := BR_Read; d_rbuf := []; d_conn := false; d_wready := false;
+     d_filt := None; d_outq := [];
+     d_ev_o := ev0; d_cpc := CC_Get; d_locked := lockd; d_lk := false; d_lq := held;
+     d_ev_w := []; d_xpc := X_Get; d_peer := [];
+     d_deliv_o := []; d_lost := []; d_deliv_w := [] |}.
+
+Definition binit2 (si so : side) : bstate := {| b_in := si; b_out := so; b_apc := BA_F1 |}.
+
+(** One-direction scenario (the output side idle and unlocked). *)
 Definition binit (held ev0 : list msg) (sp : list chunk) : bstate :=
-  {| b_wire := []; b_spont := sp; b_rpc := BR_Read; b_rbuf := []; b_conn := false; b_wready := false;
-     b_filt := None; b_outq := [];
-     b_ev_o := ev0; b_cpc := CC_Get; b_locked := true; b_lk := false; b_lq := held;
-     b_ev_w := []; b_xpc := X_Get; b_peer := []; b_apc := BA_F1;
-     b_deliv_o := []; b_lost := []; b_deliv_w := [] |}.
+  binit2 (sinit true held ev0 sp) (sinit false [] [] []).
 
 Definition baction_of (n : N) : baction :=
-  match n with 0 => BA | 2 => BR | 3 => BC | 6 => BX | 5 => BEmit | _ => BNop end.
+  match n with
+  | 0 => BA
+  | 2 => BR DIn | 3 => BC DIn | 6 => BX DIn | 5 => BEmit DIn
+  | 12 => BR DOut | 13 => BC DOut | 16 => BX DOut | 15 => BEmit DOut
+  | _ => BNop
+  end.
 
-Record bobs := mkBO {
-  bo_peer : list msg; bo_lost : list msg; bo_lq : list msg; bo_deliv_o : list msg;
-  bo_deliv_w : list msg; bo_ev_o : list msg; bo_ev_w : list msg; bo_locked : bool;
-  bo_done : bool; bo_dead : bool
+Record sobs := mkSO {
+  so_peer : list msg; so_lost : list msg; so_lq : list msg; so_deliv_o : list msg;
+  so_deliv_w : list msg; so_ev_o : list msg; so_ev_w : list msg; so_locked : bool; so_dead : bool
 }.
 
-Definition bobs_of (s : bstate) : bobs :=
-  {| bo_peer := b_peer s; bo_lost := b_lost s; bo_lq := b_lq s; bo_deliv_o := b_deliv_o s;
-     bo_deliv_w := b_deliv_w s; bo_ev_o := b_ev_o s; bo_ev_w := b_ev_w s; bo_locked := b_locked s;
-     bo_done := match b_apc s with BA_Done => true | _ => false end;
-     bo_dead := match b_rpc s with BR_Dead => true | _ => false end |}.
+Definition sobs_of (s : side) : sobs :=
+  {| so_peer := d_peer s; so_lost := d_lost s; so_lq := d_lq s; so_deliv_o := d_deliv_o s;
+     so_deliv_w := d_deliv_w s; so_ev_o := d_ev_o s; so_ev_w := d_ev_w s; so_locked := d_locked s;
+     so_dead := match d_rpc s with BR_Dead => true | _ => false end |}.
 
-Definition bobs_eqb (a b : bobs) : bool :=
-  list_eqb msg_eqb (bo_peer a) (bo_peer b) && list_eqb msg_eqb (bo_lost a) (bo_lost b)
-  && list_eqb msg_eqb (bo_lq a) (bo_lq b) && list_eqb msg_eqb (bo_deliv_o a) (bo_deliv_o b)
-  && list_eqb msg_eqb (bo_deliv_w a) (bo_deliv_w b) && list_eqb msg_eqb (bo_ev_o a) (bo_ev_o b)
-  && list_eqb msg_eqb (bo_ev_w a) (bo_ev_w b) && Bool.eqb (bo_locked a) (bo_locked b)
-  && Bool.eqb (bo_done a) (bo_done b) && Bool.eqb (bo_dead a) (bo_dead b).
+Definition sobs_eqb (a b : sobs) : bool :=
+  list_eqb msg_eqb (so_peer a) (so_peer b) && list_eqb msg_eqb (so_lost a) (so_lost b)
+  && list_eqb msg_eqb (so_lq a) (so_lq b) && list_eqb msg_eqb (so_deliv_o a) (so_deliv_o b)
+  && list_eqb msg_eqb (so_deliv_w a) (so_deliv_w b) && list_eqb msg_eqb (so_ev_o a) (so_ev_o b)
+  && list_eqb msg_eqb (so_ev_w a) (so_ev_w b) && Bool.eqb (so_locked a) (so_locked b)
+  && Bool.eqb (so_dead a) (so_dead b).
 
-Definition bcase := (bool * list msg * list msg * list chunk * list N * bobs)%type.
+(** side description: (locked?, held, pending events, spontaneous chunks) *)
+Definition sdesc := (bool * list msg * list msg * list chunk)%type.
+Definition side_of (x : sdesc) : side := let '(l, h, e, sp) := x in sinit l h e sp.
 
-Definition brun_case (c : bcase) : bobs :=
-  let '(lc, held, ev0, sp, sched, _) := c in
-  bobs_of (brun (mkBC lc) (map baction_of sched) (binit held ev0 sp)).
+Definition bcase := (bool * sdesc * sdesc * list N * (sobs * sobs * bool))%type.
+
+Definition brun_case (c : bcase) : sobs * sobs * bool :=
+  let '(lc, di, do, sched, _) := c in
+  let s := brun (mkBC lc false) (map baction_of sched) (binit2 (side_of di) (side_of do)) in
+  (sobs_of (b_in s), sobs_of (b_out s), bdone s).
 
 Definition bcheck_case (c : bcase) : bool :=
-  let '(_, _, _, _, _, o) := c in bobs_eqb (brun_case c) o.
+  let '(_, _, _, _, (oi, oo, dn)) := c in
+  let '(mi, mo, md) := brun_case c in
+  sobs_eqb mi oi && sobs_eqb mo oo && Bool.eqb md dn.
 
-(** Nothing is running any more. *)
-Definition bquiet (s : bstate) : bool :=
-  match b_apc s, b_rpc s, b_cpc s, b_xpc s, b_wire s, b_spont s, b_ev_o s, b_ev_w s with
-  | BA_Done, BR_Read, CC_Get, X_Get, [], [], [], [] => true
-  | _, _, _, _, _, _, _, _ => false
+(** Nothing is running any more on that side. *)
+Definition squiet (s : side) : bool :=
+  match d_rpc s, d_cpc s, d_xpc s, d_wire s, d_spont s, d_ev_o s, d_ev_w s with
+  | BR_Read, CC_Get, X_Get, [], [], [], [] => true
+  | _, _, _, _, _, _, _ => false
   end.
+
+Definition bquiet (s : bstate) : bool := bdone s && squiet (b_in s) && squiet (b_out s).
